@@ -42,6 +42,13 @@ package configuration
 //@ spec cfgIndexesMonotone(c *configapi.Configuration) bool = c.Status.Proposed.Index >= c.snapProposed && c.Status.Committed.Index >= c.snapCommitted && c.Status.Applied.Index >= c.snapApplied
 
 //@ iface Store.Get(ctx, id) (result, err)
+//@   probe cfgCommitted: result.Status.Committed.Index
+//@   probe cfgApplied: result.Status.Applied.Index
+//@   probe cfgProposed: result.Status.Proposed.Index
+//@   probe cfgIndex: result.Index
+//@   probe cfgTerm: result.Status.Mastership.Term
+//@   probe cfgAppliedTerm: result.Status.Applied.Mastership.Term
+//@   probe cfgState: result.Status.State
 //@   modifies storedCfgCommitted, storedCfgApplied
 //@   ensures err != nil ==> result == nil && storedCfgCommitted == old(storedCfgCommitted) && storedCfgApplied == old(storedCfgApplied)
 //@   ensures err == nil ==> result != nil && fresh(result) && cfgSnapshotted(result)
@@ -63,7 +70,7 @@ package configuration
 //@   guard {C10} cfg.term-monotone: configuration.Status.Mastership.Term >= configuration.snapTerm && configuration.Status.Applied.Mastership.Term >= configuration.snapAppliedTerm
 //@   guard {C10} cfg.applied-term-le-term: configuration.Status.Applied.Mastership.Term <= configuration.Status.Mastership.Term
 //@   guard {C01,C07} cfg.status-write-keeps-values: configuration.Index == configuration.snapIndex && configuration.Values == configuration.snapValues && domOf(configuration.Values) == configuration.snapValuesDom && valsOf(configuration.Values) == configuration.snapValuesVal
-//@   modifies configuration.ObjectMeta, configuration.tracked, configuration.snapIndex, configuration.snapProposed, configuration.snapCommitted, configuration.snapApplied, configuration.snapTerm, configuration.snapAppliedTerm, configuration.snapState, configuration.snapMaster, configuration.snapValues, configuration.snapAppliedValues, configuration.snapValuesDom, configuration.snapValuesVal, configuration.snapAppliedDom, configuration.snapAppliedVal, storedCfgCommitted, storedCfgApplied, cfgStatusWrites
+//@   modifies configuration.ObjectMeta, configuration.Status.Applied.Values, configuration.tracked, configuration.snapIndex, configuration.snapProposed, configuration.snapCommitted, configuration.snapApplied, configuration.snapTerm, configuration.snapAppliedTerm, configuration.snapState, configuration.snapMaster, configuration.snapValues, configuration.snapAppliedValues, configuration.snapValuesDom, configuration.snapValuesVal, configuration.snapAppliedDom, configuration.snapAppliedVal, storedCfgCommitted, storedCfgApplied, cfgStatusWrites
 //@   ensures cfgStatusWrites == old(cfgStatusWrites) + 1
 //@   ensures err == nil ==> cfgSnapshotted(configuration) && storedCfgCommitted == configuration.Status.Committed.Index && storedCfgApplied == configuration.Status.Applied.Index
 //@   ensures err != nil ==> !configuration.tracked && storedCfgCommitted == old(storedCfgCommitted) && storedCfgApplied == old(storedCfgApplied)
@@ -76,7 +83,7 @@ package configuration
 //@   guard {C01,C02,C07} cfg.applied-index-monotone: configuration.Status.Applied.Index >= configuration.snapApplied
 //@   guard {C02,C07} cfg.values-write-advances-committed: configuration.Status.Committed.Index > configuration.snapCommitted
 //@   guard {C10} cfg.term-monotone: configuration.Status.Mastership.Term >= configuration.snapTerm && configuration.Status.Applied.Mastership.Term >= configuration.snapAppliedTerm
-//@   modifies configuration.ObjectMeta, configuration.tracked, configuration.snapIndex, configuration.snapProposed, configuration.snapCommitted, configuration.snapApplied, configuration.snapTerm, configuration.snapAppliedTerm, configuration.snapState, configuration.snapMaster, configuration.snapValues, configuration.snapAppliedValues, configuration.snapValuesDom, configuration.snapValuesVal, configuration.snapAppliedDom, configuration.snapAppliedVal, storedCfgCommitted, storedCfgApplied, cfgValueWrites
+//@   modifies configuration.ObjectMeta, configuration.Values, configuration.tracked, configuration.snapIndex, configuration.snapProposed, configuration.snapCommitted, configuration.snapApplied, configuration.snapTerm, configuration.snapAppliedTerm, configuration.snapState, configuration.snapMaster, configuration.snapValues, configuration.snapAppliedValues, configuration.snapValuesDom, configuration.snapValuesVal, configuration.snapAppliedDom, configuration.snapAppliedVal, storedCfgCommitted, storedCfgApplied, cfgValueWrites
 //@   ensures cfgValueWrites == old(cfgValueWrites) + 1
 //@   ensures err == nil ==> cfgSnapshotted(configuration) && storedCfgCommitted == configuration.Status.Committed.Index && storedCfgApplied == configuration.Status.Applied.Index
 //@   ensures err != nil ==> !configuration.tracked && storedCfgCommitted == old(storedCfgCommitted) && storedCfgApplied == old(storedCfgApplied)
